@@ -133,6 +133,7 @@ func runC20(c *Ctx) {
 			}
 		}
 		c.verdictIf(nExec == 1, P, "once", "fn=worker one-Execute", p.pos(w.Pos()), "exactly one Execute call site in the worker loop", fmt.Sprintf("%d Execute call sites in the worker", nExec))
+		runC20ReceivedResolved(c, w)
 	}
 	other := 0
 	for _, fn := range p.SrcFuncs {
